@@ -23,6 +23,16 @@ class P(Prop):
         for u, v in list(c.graph.edges):
             if u == v:
                 c.graph.remove_edge(u, v)
+        if rng.random() < 0.2:
+            # a primary input (or gate) named like the auxiliary input of ANOTHER node: a real clash only when that node is
+            # a cut feedback node; otherwise the name is just a name and must not be treated as an auxiliary input
+            ins = sorted(c.inputs()) + ([rng.choice(sorted(c.graph.nodes))] if rng.random() < 0.3 else [])
+            a = rng.choice(ins)
+            x = rng.choice(sorted(n for n in c.graph.nodes if n != a))
+            nm = rng.choice([f"aux_in_{x}", f"c0_{x}", f"c1_{x}"]) if rng.random() < 0.3 else f"aux_in_{x}"
+            if nm not in c.graph.nodes:
+                c.relabel({a: nm})
+                self.stats.bump("names:aux_in-of-other-node")
         return c
 
     def correspond(self, n):
